@@ -45,7 +45,7 @@ static std::vector<float> offsets(unsigned n, uint64_t oseed, unsigned b, int ki
         if (kind == 0) o[i] = (float)(a * ((double)i / n - 0.5) + c);                 // smooth, fractional
         else if (kind == 1) o[i] = (float)std::round(a + c * (i % 3));                 // whole cells
         else if (kind == 2) o[i] = (float)r.uniform(-3, 3);                            // arbitrary per row
-        else o[i] = (float)((i % 4 == 0) ? big : a);                                   // some rows kicked beyond the grid
+        else o[i] = (float)(r.chance(0.25) ? (r.chance(0.5) ? big : -big) : a);        // some rows (others for every bunch) kicked beyond the grid, either way
     }
     return o;
 }
